@@ -3,7 +3,14 @@
 BASELINE_CMD = "cd /repo && go test -json -vet=off -count=1 -timeout 25m ./..."
 
 ENGINES = [
-    {"name": "rapid-pbt", "path": "/verif/harness", "serves_properties": [], "kind_free_text": "pgregory.net/rapid v1.3.0 properties and state machines injected into circl by go -overlay/-modfile; driver /verif/check.py"},
+    {"name": "rapid-pbt", "path": "/verif/harness", "serves_properties": ["C01", "C02", "C03", "C04", "C05", "C06", "C07", "C08", "C09", "C10", "C11", "C12", "C13", "C14", "C15", "C16", "C17", "C18", "C19", "C20"],
+     "kind_free_text": "pgregory.net/rapid v1.3.0 properties and state machines (plus deterministic enumerations of finite sub-domains) injected into circl by go -overlay/-modfile; driver /verif/check.py; shared library harness/zz_verif/vlib; independent reference implementations harness/zz_verif/ref/*"},
+    {"name": "go-native-fuzz", "path": "/verif/harness/zz_verif/c10core", "serves_properties": ["C10"],
+     "kind_free_text": "coverage-guided go test -fuzz targets over the decoder registry (thorough tier), corpus seeded with valid encodings and hostile constants, known findings excluded inside the target"},
+    {"name": "race-stress", "path": "/verif/harness/zz_verif/c11", "serves_properties": ["C11"],
+     "kind_free_text": "generated concurrency plans and cold-start scenarios under the Go race detector, results compared with sequential execution; race reports parsed into finding keys by the driver"},
+    {"name": "config-diff", "path": "/verif/harness/zz_verif/c14", "serves_properties": ["C14", "C06", "C12", "C13", "C15", "C03", "C04"],
+     "kind_free_text": "the same generated transcript / checks executed under build and CPU configurations (purego tag, GODEBUG=cpu.avx2/bmi2/adx=off) and compared"},
 ]
 
 NOTES = ("All checks are generated-input searches (property-based testing, enumeration of finite sub-domains, bounded native fuzzing) against explicit oracles; "
